@@ -154,15 +154,17 @@ def isolated(p):
 
 
 def affordable(p, quick):
-    """Dictionaries >= 768 MiB commit several GiB (the aligned match-finder tables are really zero-filled): the quick
-    tier executes the classes that are refused before anything is allocated, plus the 768 MiB boundary on two writers."""
+    """Dictionaries >= 768 MiB commit several GiB (the aligned match-finder tables are really zero-filled, ~25 s each
+    on a busy machine). Quick executes only: the classes whose value overflows the encoder's 31-bit positions (refused
+    or failing before anything is allocated) on the three single-threaded non-LZIP writers, and the first value above
+    the encoder maximum on the XZ writer (refused before allocation once validated). Everything else: thorough."""
     if p["dict"] not in BIG_DICT:
         return True
-    if p["dict"] in ("2G", "4G-16", "4G-1"):
+    if not quick:
         return True
-    if quick:
-        return p["dict"] in ("768M", "768M+1") and p["w"] in ("lzma2", "xz")
-    return True
+    if p["dict"] in ("2G", "4G-16", "4G-1"):
+        return p["w"] in ("lzma", "lzma2", "xz")
+    return p["dict"] == "768M+1" and p["w"] == "xz"
 
 
 def run(tier, replay=None):
@@ -230,6 +232,7 @@ def run(tier, replay=None):
 
     classes = set()
     mismatches = []
+    exact_mismatch = 0
     reproduced = 0
     for i, x in enumerate(pts):
         p, pred = x["point"], x["class"]
@@ -247,8 +250,11 @@ def run(tier, replay=None):
             if pred in ("Panic", "OkUndecodable"):
                 reproduced += 1
         obs_n = "Panic" if obs == "Abort" else obs
-        if obs_n != pred:
-            mismatches.append((p, pred, obs, worst_r.get("detail", "")[:100]))
+        inside = lambda c: c in ("Err", "OkDecodable")
+        if inside(obs_n) != inside(pred):
+            mismatches.append((p, pred, obs, worst_r.get("detail", "")[:100]))      # the model is wrong about the contract
+        elif obs_n != pred:
+            exact_mismatch += 1                                                       # e.g. Panic vs OkUndecodable, Err vs clamp
         if p["slice"] != "base":
             classes.add((p["w"], p["slice"], vc, obs_n))
     if pred_bad and reproduced == 0:
@@ -258,6 +264,7 @@ def run(tier, replay=None):
         ctx.note_drift(f"Options.tla (as-built) predicts {pred} for {p['w']}/{p['slice']}/{value_class(p)}"
                        f"{'/' + p['mf'] + '/' + p['mode'] if p['slice'] == 'nice' else ''} but the code gives {obs} {det}")
     ctx.cov["model_mispredictions"] = len(mismatches)
+    ctx.cov["model_class_differs_same_side_of_contract"] = exact_mismatch
     if len(mismatches) > len(pts) // 10:
         raise ToolError(f"Options.tla mispredicts {len(mismatches)} of {len(pts)} grid points: the model does not describe this tree "
                         f"(first: {mismatches[0]})")
